@@ -79,4 +79,10 @@ CHECKS = {
   "text": "Atom sets handed directly to the bond search (random clouds anywhere in the coordinate field; pairs placed around every bonding threshold relative to the 2.51 A cell lattice so that the partner lies in each of the 26 neighbouring cells or exactly on a cell face/edge/corner; permuted lists; unique, constant and repeated serial numbers) must produce exactly the reference bond set, symmetric lists without self-bonds or duplicates, order independence, bridge flags on exactly the S-S pairs within 2.5 A, and a symmetric pair predicate equal to the reference; end to end, cysteine pairs at 1.9-2.7 A are reported bridged (99.99) iff within 2.5 A.",
   "note": "Trusts vlib/refs.py:ref_bonded (independent constants, exact integer arithmetic). Exact threshold ties are excluded. The F-F 1.7 A entry of the code is shadowed by the default rule; the reference follows the code (documented).",
  },
+ "C09": {
+  "level": "exploration",
+  "technique": "property-based testing (Hypothesis) against an independent Henderson-Hasselbalch reference: unit level (single groups), structure level (profiles, printed table, pI root bracketing) and call histories on one container",
+  "text": "Single-group charges are compared with an independent HH evaluation (range, half charge at pH = pKa, never increasing) over pKa in [-20,40] and pH in [-200,200] incl. neighbouring floats; for generated structures (acids only, bases only, mixed, ligand-only, nothing titratable) and generated grids every API profile row and every printed row must equal the sums of HH charges with model / predicted pKa (unfolded, folded order), and every pI (default and user windows/precisions, and the printed line) must bracket a root of the right reference curve; histories query profiles and pI before and after the pKa calculation on the same container.",
+  "note": "Trusts vlib/refs.py:hh_charge (5 lines). Single-group comparisons use 1e-12, totals 1e-9, printed values must be correct roundings. |pKa - pH| < 308 (float range).",
+ },
 }
